@@ -376,9 +376,9 @@ func run(raw json.RawMessage) lib.Case {
 		}
 	}
 	o := obs{Events: len(evs), Per: per, Timeout: !(okOthers && okAll), Trace: fmt.Sprint(head), Released: in.Blocked >= 0}
-	if !reached && okOthers && okAll {
-		// fewer messages arrived than were sent although nothing timed out: sends failed at set-up
-		return lib.Case{Discard: true}
+	if !reached {
+		// fewer messages were accepted than were sent: judged on what was accepted
+		class += "+unreached"
 	}
 	return lib.Case{Coq: coq, Class: class, Obs: o, Nontrivial: len(evs) > 6,
 		Key: fmt.Sprint(items)}
